@@ -98,6 +98,7 @@ Theorem C35_source_facts :
   gen_redact_calls_inside_matching_range_loops = true /\
   gen_written_slices = [["Peers"]; ["Listeners"]; ["SOCKS5"; "Auth"; "Users"]]%string /\
   gen_string_renders_redacted_copy = true /\
+  gen_string_return_statements = 1 /\
   lit gen_placeholder = placeholder /\
   gen_redact_only_nonempty = true.
 Proof. repeat split; reflexivity. Qed.
